@@ -501,7 +501,7 @@ var specBuiltins = map[string]string{
 	"isIntegral": "V_isIntegral", "isFinite": "V_isFinite", "toReal": "V_toReal", "hasPrefix": "V_hasPrefix", "hasSuffix": "V_hasSuffix",
 	"elemsfresh": "V_elemsfresh", "sameslice": "V_sameslice", "realOfInt": "V_realOfInt", "real": "V_real",
 	"rlt": "V_rlt", "rle": "V_rle", "req": "V_req", "isNaN": "V_isNaN", "fresherThan": "V_fresherThan",
-	"concat": "V_concat", "sliceprefix": "V_sliceprefix", "runeCount": "V_runeCount", "first": "V_first", "second": "V_second", "runeAt": "V_runeAt", "strcat": "V_strcat", "fnv32": "V_fnv32", "nonNilPayload": "V_nonNilPayload", "strOfSeq": "V_strOfSeq", "payloadRef": "V_payloadRef", "cap": "cap", "sameref": "V_sameref", "comparable": "V_comparable",
+	"concat": "V_concat", "sliceprefix": "V_sliceprefix", "runeCount": "V_runeCount", "first": "V_first", "second": "V_second", "runeAt": "V_runeAt", "strcat": "V_strcat", "fnv32": "V_fnv32", "nonNilPayload": "V_nonNilPayload", "strOfSeq": "V_strOfSeq", "payloadRef": "V_payloadRef", "cap": "cap", "sameref": "V_sameref", "comparable": "V_comparable", "distinctbase": "V_distinctbase",
 	"itoa": "V_itoa", "atoi": "V_atoi", "parseIntOk": "V_parseIntOk", "parseUintOk": "V_parseUintOk", "isDecimal": "V_isDecimal", "parseFloat": "V_parseFloat", "isDecInt": "V_isDecInt",
 }
 
@@ -742,6 +742,7 @@ func V_fresherThan(x any, y any) bool { return true }
 func V_sameslice(x, y any) bool { return true }
 func V_sameref(x, y any) bool { return true }
 func V_comparable(x any) bool { return true }
+func V_distinctbase(x, y any) bool { return true }
 func V_itoa(x int) string { return "" }
 func V_atoi(s string) int { return 0 }
 func V_parseIntOk(s string, bits int) bool { return true }
